@@ -759,7 +759,7 @@ def machine_shard(shard, nshards, seed, tier):
     logging.getLogger('mapproxy').setLevel(logging.ERROR)
     st_ = core.Stats()
     if tier == 'quick':
-        n, steps = 2400 // nshards, 30
+        n, steps = 1600 // nshards, 30
     else:
         n, steps = 48000 // nshards, 50
     core.run_machine(make_machine(tier), st_, max_examples=n, seed=seed, step_count=steps)
